@@ -482,6 +482,10 @@ func runC06(r *simkit.Run) {
 		runRouting(r, "C06")
 		return
 	}
+	if r.Tape.Chance(1, 12) {
+		runC06Helper(r)
+		return
+	}
 	tp := r.Tape
 	p := pd{sig: drawSignal(tp), rseed: int64(tp.Draw(1 << 30))}
 	n := tp.Range(1, 5)
@@ -707,7 +711,7 @@ func witnessesIn(b []byte) string {
 
 var HarnessC06 = simkit.Harness{
 	Prop: "C06", Name: "svc/c06", Run: runC06, StepTimeout: 20e9, HashInsensitive: true,
-	Real: append([]string{"internal/fanoutconsumer (logs, traces, metrics, profiles)", "pdata read-only state and deep copy", "service/internal/capabilityconsumer and the graph's capabilities / fan-out nodes (graph mode)"}, svcReal...),
+	Real: append([]string{"internal/fanoutconsumer (logs, traces, metrics, profiles)", "exporterhelper exporters (in-memory queue, batching none / queue / legacy) for the declared capability of the exporter stage (1 run in 12)", "pdata read-only state and deep copy", "service/internal/capabilityconsumer and the graph's capabilities / fan-out nodes (graph mode)"}, svcReal...),
 	Stub: append([]string{"consumers with a declared capability, an injected failure and a mutation program run during the call, as a later task, or undeclared"}, svcStub...),
 	Rule: "one run = direct mode: a fan-out over 1-5 simulated consumers with a tape-drawn capability vector, read-only or mutable generated input, per-consumer failure and mutation program (6 kinds: one overwrites every reachable value in place keeping its type, one is a seeded walk over the public pdata API found by reflection calling Set*/Put*/Remove*/Append*/From*/Clear*/Ensure*/Sort* with generated arguments; synchronous, as a later task in tape order, or undeclared by a non-mutating consumer); or graph mode: a generated service topology (as C09) whose mutating processors and mutating exporters really mutate, with delivery trails and each pipeline's advertised capability compared with the configuration; distinct = distinct event-log hash; non-trivial = more than one consumer or an asynchronous mutation / a payload with >1 delivery.",
 }
